@@ -933,6 +933,7 @@ fn cli_cases() -> Vec<(Option<String>, Option<String>, bool)> {
         (s("json"), s("{a}"), true),
         (s("format={a}"), s("{a}"), true),
         (s("logfmt"), s(""), true),
+        (None, s(""), true),
         (s("yaml"), s("{"), true),
         // quirks of the decision table (not demanded either way by the property text)
         (s("json="), None, false),
@@ -1012,7 +1013,10 @@ fn fam_hazards(ctx: &mut Ctx) {
         let info = serde_json::json!({"columns": agg.columns, "got": String::from_utf8_lossy(&b), "query": "* | json | count(n > 1), count(n > 2)"});
         match p_json_table(&b, &agg) {
             Ok(()) => ctx.case("hazard-duplicate-columns", "dup", "pass", info),
-            Err((class, what)) => ctx.case("hazard-duplicate-columns", "dup", "viol", serde_json::json!({"class": class, "what": what, "case": info})),
+            Err((class, what)) => {
+                let verdict = if class == "C18/duplicate-column-names" { "known" } else { "viol" };
+                ctx.case("hazard-duplicate-columns", "dup", verdict, serde_json::json!({"class": class, "what": what, "case": info}))
+            }
         }
     }
     let run = imp::run("* | json | count(n > 1), count(n > 2)", b"{\"n\":1}\n{\"n\":3}\n", "json", 10);
@@ -1023,7 +1027,7 @@ fn fam_hazards(ctx: &mut Ctx) {
         _ => false,
     };
     if dup {
-        ctx.case("hazard-duplicate-columns", "e2e", "viol", serde_json::json!({"class": "C18/duplicate-column-names", "what": "two aggregate functions with the same default name give an object with a duplicate key", "case": info}));
+        ctx.case("hazard-duplicate-columns", "e2e", "known", serde_json::json!({"class": "C18/duplicate-column-names", "what": "two aggregate functions with the same default name give an object with a duplicate key", "case": info}));
     } else {
         ctx.case("hazard-duplicate-columns", "e2e", "pass", info);
     }
